@@ -803,4 +803,337 @@ theorem items_structure (o : Opts) {path : Path} {put : Container → Cif} {code
       rw [e, h1, h3]
       simp [denoteItems, mkLoop]
 
+
+/-! ### pruning: every loop the productions leave behind has a packet -/
+
+def allPacked (ls : List Loop) : Prop := ∀ l ∈ ls, l.packets.isEmpty = false
+
+theorem allPacked_putScalar (ls : List Loop) (n : Str) (v : V) (h : allPacked ls) : allPacked (putScalar ls n v) := by
+  induction ls with
+  | nil => intro l hl; simp [putScalar] at hl; subst hl; rfl
+  | cons a r ih =>
+    simp only [putScalar]
+    split
+    · intro l hl
+      rcases List.mem_cons.mp hl with rfl | hl
+      · have ha := h a (by simp)
+        simp only [ha, Bool.false_eq_true, if_false]
+        cases hp : a.packets with
+        | nil => rw [hp] at ha; cases ha
+        | cons x y => rfl
+      · exact h l (by simp [hl])
+    · intro l hl
+      rcases List.mem_cons.mp hl with rfl | hl
+      · exact h _ (by simp)
+      · exact ih (fun l hl => h l (by simp [hl])) l hl
+
+theorem allPacked_denoteItems (o : Opts) : ∀ (its : List Item) (seen : List Str) (ls : List Loop), wfItems o its seen = true →
+    allPacked ls → allPacked (denoteItems o.dia o.normKey its ls)
+  | [], _, ls, _, h => by simpa [denoteItems] using h
+  | .item n v :: r, seen, ls, hw, h => by
+    simp only [wfItems, Bool.and_eq_true] at hw
+    simp only [denoteItems]
+    exact allPacked_denoteItems o r _ _ hw.2 (allPacked_putScalar ls n _ h)
+  | .loop ns ps :: r, seen, ls, hw, h => by
+    simp only [wfItems, Bool.and_eq_true, Bool.not_eq_true'] at hw
+    simp only [denoteItems]
+    refine allPacked_denoteItems o r _ _ hw.2 ?_
+    intro l hl
+    rcases List.mem_append.mp hl with hl | hl
+    · exact h l hl
+    · simp only [List.mem_singleton] at hl
+      subst hl
+      cases ps with
+      | nil => simp at hw
+      | cons a b => rfl
+
+theorem pruneC_packed (code : Str) (fs : List Container) (ls : List Loop) (h : allPacked ls) :
+    pruneC (.mk code fs ls) = .mk code fs ls := by
+  simp only [pruneC]
+  congr
+  rw [List.filter_eq_self]
+  intro l hl
+  simp [h l hl]
+
+/-! ### save frames and data blocks -/
+
+def wfCode (c : Str) : Bool := isValidName false c && noNul c
+
+theorem createIn_frame (o : Opts) (done : Cif) (bcode : Str) (hfresh : ∀ c ∈ done, codeIs o.norm (o.norm bcode) c = false)
+    (fc : Str) (fs : List Container) (ls : List Loop) (line col : Nat) (pol : Policy) (w : W)
+    (hcif : w.cif = done ++ [.mk bcode fs ls]) (hvalid : isValidName false fc = true)
+    (hnew : ∀ c ∈ fs, codeIs o.norm (o.norm fc) c = false) :
+    createIn o false [o.norm bcode] fc line col pol w
+      = .ok [o.norm bcode, o.norm fc] { w with cif := done ++ [.mk bcode (fs ++ [.mk fc [] []]) ls] } := by
+  have hv := View.block o done bcode hfresh
+  have hany : fs.any (codeIs o.norm (o.norm fc)) = false := by
+    rw [List.any_eq_false]; intro c hc; simp [hnew c hc]
+  unfold createIn
+  simp only [bind_eq, pure_eq, P.bind, P.pure, getCif, setCif, hcif, hv.get, hv.upd, Bool.false_eq_true, if_false, hvalid,
+    Bool.not_true, Option.map_some, Option.getD_some, Container.frames, Container.code, Container.loops, hany,
+    List.singleton_append, List.cons_append, List.nil_append]
+
+theorem createIn_block (o : Opts) (code : Str) (line col : Nat) (pol : Policy) (w : W) (hvalid : isValidName false code = true)
+    (hnew : ∀ c ∈ w.cif, codeIs o.norm (o.norm code) c = false) :
+    createIn o true [] code line col pol w = .ok [o.norm code] { w with cif := w.cif ++ [.mk code [] []] } := by
+  have hany : w.cif.any (codeIs o.norm (o.norm code)) = false := by
+    rw [List.any_eq_false]; intro c hc; simp [hnew c hc]
+  unfold createIn
+  simp only [bind_eq, pure_eq, P.bind, P.pure, getCif, setCif, if_true, hvalid, Bool.not_true, Bool.false_eq_true, if_false, hany,
+    List.nil_append]
+
+/-- one save frame inside the element loop of a data block -/
+theorem frame_step (o : Opts) (done : Cif) (bcode : Str) (hfresh : ∀ c ∈ done, codeIs o.norm (o.norm bcode) c = false)
+    (fc : Str) (body : List Item) (rest : List TokSpec) (s : PS) (fuel : Nat) (pol : Policy) (w : W) (fs : List Container)
+    (ls : List Loop) (hcif : w.cif = done ++ [.mk bcode fs ls]) (hmfd : o.maxFrameDepth ≠ 0) (hcode : wfCode fc = true)
+    (hnew : ∀ c ∈ fs, codeIs o.norm (o.norm fc) c = false) (hwb : wfItems o body [] = true)
+    (hfuel : szItems body + body.length + 3 ≤ fuel)
+    (hF : Feeds o s ((.frameHead, fc) :: (itemsToks body ++ (.frameTerm, []) :: rest))) :
+    ∃ s', elemsLoop o (fuel + 1) s (some [o.norm bcode]) true pol w
+        = elemsLoop o fuel s' (some [o.norm bcode]) true pol
+            { w with cif := done ++ [.mk bcode (fs ++ [.mk fc [] (denoteItems o.dia o.normKey body [])]) ls] }
+      ∧ Feeds o s' rest := by
+  simp only [wfCode, Bool.and_eq_true] at hcode
+  obtain ⟨t, s1, hty, htx, hn, _, hr⟩ := hF.inv
+  obtain ⟨X, hX⟩ : ∃ X, fuel = X + 1 := ⟨fuel - 1, by omega⟩
+  obtain ⟨g, hg⟩ : ∃ g, X = (g + 1) + body.length := ⟨X - body.length - 1, by omega⟩
+  have hvf := View.frame o done bcode fs ls fc hfresh hnew
+  obtain ⟨s2, h1, h2⟩ := items_structure o hvf body [] ((.frameTerm, []) :: rest) (consume s1) (g + 1) pol
+    { w with cif := done ++ [.mk bcode (fs ++ [.mk fc [] []]) ls] } [] [] false rfl hwb
+    (by intro k hk; simp [normNames] at hk) (by omega) ⟨_, _, _, rfl, rfl⟩ hr
+  obtain ⟨t3, s3, hty3, _, hn3, _, hr3⟩ := h2.inv
+  refine ⟨consume s3, ?_, hr3⟩
+  have hpacked : allPacked (denoteItems o.dia o.normKey body []) :=
+    allPacked_denoteItems o body [] [] hwb (by intro l hl; cases hl)
+  rw [← hg] at h1
+  conv => lhs; rw [elemsLoop]
+  simp only [bind_eq, pure_eq, P.bind, P.pure, hn, hty, htx, cstr_noNul hcode.2, Bool.not_true, and_false, false_and, if_false, hmfd,
+    Bool.false_eq_true, createIn_frame o done bcode hfresh fc fs ls _ _ pol w hcif hcode.1 hnew]
+  conv => lhs; rw [hX, parseContainer]
+  simp only [bind_eq, pure_eq, P.bind, P.pure, h1]
+  conv => lhs; rw [elemsLoop]
+  simp only [bind_eq, pure_eq, P.bind, P.pure, hn3, hty3, Bool.false_eq_true, if_false, getCif, setCif, hvf.upd,
+    pruneC_packed _ _ _ hpacked]
+  rw [hX]
+
+
+/-! ### the body of a data block -/
+
+def itemNames (o : Opts) : Item → List Str
+  | .item n _ => [o.norm n]
+  | .loop ns _ => ns.map o.norm
+
+/-- well-formed elements of a data block: `seen` = normalised item names, `fseen` = normalised frame codes already there -/
+def wfElems (o : Opts) : List Elem → List Str → List Str → Bool
+  | [], _, _ => true
+  | .plain i :: r, seen, fseen => wfItems o [i] seen && wfElems o r (itemNames o i ++ seen) fseen
+  | .frame c b :: r, seen, fseen =>
+    wfCode c && !fseen.contains (o.norm c) && wfItems o b [] && wfElems o r seen (o.norm c :: fseen)
+
+def szElem : Elem → Nat
+  | .plain i => szItem i
+  | .frame _ b => szItems b + b.length + 3
+
+def szElems : List Elem → Nat
+  | [] => 0
+  | e :: r => szElem e + szElems r
+
+theorem elemToks_head (e : Elem) : ∃ ty tx ts, elemToks e = (ty, tx) :: ts ∧ isTerminator ty = true := by
+  cases e with
+  | plain i => exact itemToks_head i
+  | frame c b => exact ⟨_, _, _, rfl, rfl⟩
+
+theorem elems_rest_head (r : List Elem) (rest : List TokSpec) (hrest : ∃ ty tx ts, rest = (ty, tx) :: ts ∧ isTerminator ty = true) :
+    ∃ ty tx ts, elemsToks r ++ rest = (ty, tx) :: ts ∧ isTerminator ty = true := by
+  cases r with
+  | nil => simpa [elemsToks] using hrest
+  | cons e r' =>
+    obtain ⟨ty, tx, ts, h, ht⟩ := elemToks_head e
+    exact ⟨ty, tx, ts ++ (elemsToks r' ++ rest), by simp [elemsToks, h], ht⟩
+
+theorem normNames_item (o : Opts) (i : Item) (seen : List Str) (ls : List Loop) (hw : wfItems o [i] seen = true)
+    (hseen : ∀ k ∈ normNames o ls, k ∈ seen) : ∀ k ∈ normNames o (denoteItems o.dia o.normKey [i] ls), k ∈ itemNames o i ++ seen := by
+  intro k hk
+  cases i with
+  | item n v =>
+    simp only [denoteItems] at hk
+    rcases (normNames_putScalar o ls n _ k).mp hk with h | h
+    · exact List.mem_append_right _ (hseen k h)
+    · rw [h]; simp [itemNames]
+  | loop ns ps =>
+    simp only [denoteItems] at hk
+    rcases (normNames_append o ls _ k).mp hk with h | h
+    · exact List.mem_append_right _ (hseen k h)
+    · exact List.mem_append_left _ h
+
+theorem elems_structure (o : Opts) (done : Cif) (bcode : Str) (hfresh : ∀ c ∈ done, codeIs o.norm (o.norm bcode) c = false)
+    (hmfd : o.maxFrameDepth ≠ 0) :
+    ∀ (es : List Elem) (seen fseen : List Str) (rest : List TokSpec) (s : PS) (fuel : Nat) (pol : Policy) (w : W)
+      (fs : List Container) (ls : List Loop), w.cif = done ++ [.mk bcode fs ls] → wfElems o es seen fseen = true →
+      (∀ k ∈ normNames o ls, k ∈ seen) → (∀ c ∈ fs, o.norm c.code ∈ fseen) → szElems es ≤ fuel →
+      (∃ ty tx ts, rest = (ty, tx) :: ts ∧ isTerminator ty = true) → Feeds o s (elemsToks es ++ rest) →
+      ∃ s', elemsLoop o (fuel + es.length) s (some [o.norm bcode]) true pol w
+          = elemsLoop o fuel s' (some [o.norm bcode]) true pol
+              { w with cif := done ++ [.mk bcode (denoteElems o.dia o.normKey es fs ls).1 (denoteElems o.dia o.normKey es fs ls).2] }
+        ∧ Feeds o s' rest
+  | [], seen, fseen, rest, s, fuel, pol, w, fs, ls, hcif, _, _, _, _, _, hF => by
+    refine ⟨s, ?_, by simpa [elemsToks] using hF⟩
+    simp only [List.length_nil, Nat.add_zero, denoteElems]
+    have : ({ w with cif := done ++ [.mk bcode fs ls] } : W) = w := by cases w; simp_all
+    rw [this]
+  | .plain i :: r, seen, fseen, rest, s, fuel, pol, w, fs, ls, hcif, hwf, hseen, hfseen, hfuel, hrest, hF => by
+    simp only [wfElems, Bool.and_eq_true] at hwf
+    simp only [szElems, szElem] at hfuel
+    have hv := View.block o done bcode hfresh
+    simp only [elemsToks, elemToks, List.append_assoc] at hF
+    have hF1 : Feeds o s (itemsToks [i] ++ (elemsToks r ++ rest)) := by simpa [itemsToks] using hF
+    obtain ⟨s1, h1, h2⟩ := items_structure o hv [i] seen (elemsToks r ++ rest) s (fuel + r.length) pol w fs ls true hcif hwf.1 hseen
+      (by simp [szItems]; omega) (elems_rest_head r rest hrest) hF1
+    obtain ⟨s2, h3, h4⟩ := elems_structure o done bcode hfresh hmfd r (itemNames o i ++ seen) fseen rest s1 fuel pol
+      { w with cif := done ++ [.mk bcode fs (denoteItems o.dia o.normKey [i] ls)] } fs _ rfl hwf.2
+      (normNames_item o i seen ls hwf.1 hseen) hfseen (by omega) hrest h2
+    refine ⟨s2, ?_, h4⟩
+    have e : fuel + (Elem.plain i :: r).length = (fuel + r.length) + [i].length := by simp; omega
+    rw [e, h1, h3]
+    simp [denoteElems]
+  | .frame c b :: r, seen, fseen, rest, s, fuel, pol, w, fs, ls, hcif, hwf, hseen, hfseen, hfuel, hrest, hF => by
+    simp only [wfElems, Bool.and_eq_true, Bool.not_eq_true'] at hwf
+    obtain ⟨⟨⟨hcode, hcnew⟩, hwb⟩, hwr⟩ := hwf
+    simp only [szElems, szElem] at hfuel
+    have hnew : ∀ c' ∈ fs, codeIs o.norm (o.norm c) c' = false := by
+      intro c' hc'
+      have h1 := hfseen c' hc'
+      simp only [codeIs, beq_eq_false_iff_ne, ne_eq]
+      intro heq
+      rw [heq] at h1
+      simp [List.contains_iff_mem] at hcnew
+      exact hcnew h1
+    simp only [elemsToks, elemToks, List.cons_append, List.append_assoc, List.singleton_append] at hF
+    obtain ⟨s1, h1, h2⟩ := frame_step o done bcode hfresh c b (elemsToks r ++ rest) s (fuel + r.length) pol w fs ls hcif hmfd hcode
+      hnew hwb (by omega) hF
+    obtain ⟨s2, h3, h4⟩ := elems_structure o done bcode hfresh hmfd r seen (o.norm c :: fseen) rest s1 fuel pol
+      { w with cif := done ++ [.mk bcode (fs ++ [.mk c [] (denoteItems o.dia o.normKey b [])]) ls] } _ ls rfl hwr hseen
+      (by
+        intro c' hc'
+        rcases List.mem_append.mp hc' with h | h
+        · exact List.mem_cons_of_mem _ (hfseen c' h)
+        · simp only [List.mem_singleton] at h; subst h; simp [Container.code])
+      (by omega) hrest h2
+    refine ⟨s2, ?_, h4⟩
+    have e : fuel + (Elem.frame c b :: r).length = (fuel + r.length) + 1 := by simp; omega
+    rw [e, h1, h3]
+    simp [denoteElems]
+
+
+theorem allPacked_denoteElems (o : Opts) : ∀ (es : List Elem) (seen fseen : List Str) (fs : List Container) (ls : List Loop),
+    wfElems o es seen fseen = true → allPacked ls → allPacked (denoteElems o.dia o.normKey es fs ls).2
+  | [], _, _, fs, ls, _, h => by simpa [denoteElems] using h
+  | .plain i :: r, seen, fseen, fs, ls, hw, h => by
+    simp only [wfElems, Bool.and_eq_true] at hw
+    simp only [denoteElems]
+    exact allPacked_denoteElems o r _ _ fs _ hw.2 (allPacked_denoteItems o [i] seen ls hw.1 h)
+  | .frame c b :: r, seen, fseen, fs, ls, hw, h => by
+    simp only [wfElems, Bool.and_eq_true] at hw
+    simp only [denoteElems]
+    exact allPacked_denoteElems o r _ _ _ ls hw.2 h
+
+/-! ### data blocks -/
+
+/-- well-formed data blocks; `bseen` = the normalised block codes already in the CIF -/
+def wfBlocks (o : Opts) : List Block → List Str → Bool
+  | [], _ => true
+  | b :: r, bseen => wfCode b.code && !bseen.contains (o.norm b.code) && wfElems o b.body [] [] && wfBlocks o r (o.norm b.code :: bseen)
+
+def szBlock (b : Block) : Nat := szElems b.body + b.body.length + 3
+
+def szBlocks : List Block → Nat
+  | [] => 0
+  | b :: r => szBlock b + szBlocks r
+
+/-- the token that follows a data block: the next block header or the end of the input -/
+def blockFollow (rest : List TokSpec) : Prop :=
+  ∃ ty tx ts, rest = (ty, tx) :: ts ∧ (ty = .blockHead ∨ ty = .end_)
+
+theorem blockFollow_term {rest : List TokSpec} (h : blockFollow rest) : ∃ ty tx ts, rest = (ty, tx) :: ts ∧ isTerminator ty = true := by
+  obtain ⟨ty, tx, ts, rfl, h | h⟩ := h <;> exact ⟨ty, tx, ts, rfl, by subst h; rfl⟩
+
+/-- one data block inside the block loop of parse_cif -/
+theorem block_step (o : Opts) (hstore : o.store = true) (hmfd : o.maxFrameDepth ≠ 0) (b : Block) (rest : List TokSpec) (s : PS)
+    (fuel : Nat) (pol : Policy) (w : W) (hcode : wfCode b.code = true) (hnew : ∀ c ∈ w.cif, codeIs o.norm (o.norm b.code) c = false)
+    (hwb : wfElems o b.body [] [] = true) (hfuel : szBlock b ≤ fuel) (hrest : blockFollow rest)
+    (hF : Feeds o s ((.blockHead, b.code) :: (elemsToks b.body ++ rest))) :
+    ∃ s', blocksLoop o (fuel + 1) s pol w = blocksLoop o fuel s' pol { w with cif := w.cif ++ [denoteBlock o.dia o.normKey b] }
+      ∧ Feeds o s' rest := by
+  simp only [wfCode, Bool.and_eq_true] at hcode
+  simp only [szBlock] at hfuel
+  obtain ⟨t, s1, hty, htx, hn, _, hr⟩ := hF.inv
+  obtain ⟨X, hX⟩ : ∃ X, fuel = X + 1 := ⟨fuel - 1, by omega⟩
+  obtain ⟨g, hg⟩ : ∃ g, X = (g + 1) + b.body.length := ⟨X - b.body.length - 1, by omega⟩
+  obtain ⟨s2, h1, h2⟩ := elems_structure o w.cif b.code hnew hmfd b.body [] [] rest (consume s1) (g + 1) pol
+    { w with cif := w.cif ++ [.mk b.code [] []] } [] [] rfl hwb (by intro k hk; simp [normNames] at hk) (by intro c hc; cases hc)
+    (by omega) (blockFollow_term hrest) hr
+  rw [← hg] at h1
+  obtain ⟨ty, tx, ts, rfl, hfol⟩ := hrest
+  obtain ⟨t3, s3, hty3, htx3, hn3, ht3, hr3⟩ := h2.inv
+  refine ⟨s3, ?_, by rw [← hty3, ← htx3]; exact Feeds.pending ht3 hr3⟩
+  have hpacked : allPacked (denoteElems o.dia o.normKey b.body [] []).2 :=
+    allPacked_denoteElems o b.body [] [] [] [] hwb (by intro l hl; cases hl)
+  have hv := View.block o w.cif b.code hnew
+  conv => lhs; rw [blocksLoop]
+  simp only [bind_eq, pure_eq, P.bind, P.pure, hn, hty, htx, hstore, if_true, cstr_noNul hcode.2,
+    createIn_block o b.code _ _ pol w hcode.1 hnew]
+  conv => lhs; rw [hX, parseContainer]
+  simp only [bind_eq, pure_eq, P.bind, P.pure, h1]
+  conv => lhs; rw [elemsLoop]
+  rcases hfol with h | h
+  · simp only [bind_eq, pure_eq, P.bind, P.pure, hn3, hty3, h, if_true, getCif, setCif, hv.upd, pruneC_packed _ _ _ hpacked]
+    rw [hX]; rfl
+  · simp only [bind_eq, pure_eq, P.bind, P.pure, hn3, hty3, h, if_true, getCif, setCif, hv.upd, pruneC_packed _ _ _ hpacked]
+    rw [hX]; rfl
+
+theorem blocks_rest_head (r : List Block) : blockFollow (blocksToks r ++ [(.end_, [])]) := by
+  cases r with
+  | nil => exact ⟨_, _, _, rfl, Or.inr rfl⟩
+  | cons b r' => exact ⟨.blockHead, b.code, elemsToks b.body ++ blocksToks r' ++ [(.end_, [])], by simp [blocksToks], Or.inl rfl⟩
+
+theorem blocks_structure (o : Opts) (hstore : o.store = true) (hmfd : o.maxFrameDepth ≠ 0) :
+    ∀ (bs : List Block) (bseen : List Str) (s : PS) (fuel : Nat) (pol : Policy) (w : W), wfBlocks o bs bseen = true →
+      (∀ c ∈ w.cif, o.norm c.code ∈ bseen) → szBlocks bs + 1 ≤ fuel → Feeds o s (blocksToks bs ++ [(.end_, [])]) →
+      ∃ s', blocksLoop o (fuel + bs.length) s pol w = .ok s' { w with cif := w.cif ++ denote o.dia o.normKey bs }
+  | [], bseen, s, fuel, pol, w, _, _, hfuel, hF => by
+    obtain ⟨f, rfl⟩ : ∃ f, fuel = f + 1 := ⟨fuel - 1, by omega⟩
+    simp only [blocksToks, List.nil_append] at hF
+    obtain ⟨t, s1, hty, _, hn, _, _⟩ := hF.inv
+    refine ⟨s1, ?_⟩
+    simp only [List.length_nil, Nat.add_zero]
+    rw [blocksLoop]
+    simp only [bind_eq, pure_eq, P.bind, P.pure, hn, hty, denote, List.map_nil, List.append_nil]
+  | b :: r, bseen, s, fuel, pol, w, hwf, hseen, hfuel, hF => by
+    simp only [wfBlocks, Bool.and_eq_true, Bool.not_eq_true'] at hwf
+    obtain ⟨⟨⟨hcode, hcnew⟩, hwb⟩, hwr⟩ := hwf
+    simp only [szBlocks] at hfuel
+    have hnew : ∀ c ∈ w.cif, codeIs o.norm (o.norm b.code) c = false := by
+      intro c hc
+      have h1 := hseen c hc
+      simp only [codeIs, beq_eq_false_iff_ne, ne_eq]
+      intro heq
+      rw [heq] at h1
+      simp [List.contains_iff_mem] at hcnew
+      exact hcnew h1
+    simp only [blocksToks, List.cons_append, List.append_assoc] at hF
+    obtain ⟨s1, h1, h2⟩ := block_step o hstore hmfd b (blocksToks r ++ [(.end_, [])]) s (fuel + r.length) pol w hcode hnew hwb
+      (by omega) (blocks_rest_head r) hF
+    obtain ⟨s2, h3⟩ := blocks_structure o hstore hmfd r (o.norm b.code :: bseen) s1 fuel pol
+      { w with cif := w.cif ++ [denoteBlock o.dia o.normKey b] } hwr
+      (by
+        intro c hc
+        rcases List.mem_append.mp hc with h | h
+        · exact List.mem_cons_of_mem _ (hseen c h)
+        · simp only [List.mem_singleton] at h; subst h; simp [denoteBlock, Container.code])
+      (by omega) h2
+    refine ⟨s2, ?_⟩
+    have e : fuel + (b :: r).length = (fuel + r.length) + 1 := by simp; omega
+    rw [e, h1, h3]
+    simp [denote, List.append_assoc]
+
 end CifModel.Model.Parser
